@@ -245,6 +245,22 @@ class C09(F.PropCheck):
             evs = [('CFG', cfg, b''), ('CB', [10000], b''), ('SET', [d], b''), ('CB', [rpt + rng.choice([-1, 0, 0, 1])], b'')]
             evs += [('CB', [rng.choice([1000, 10000, 30000])], b'') for _ in range(rng.randrange(2, 12))]
             cases.append(F.Case('%s%sB%d' % (prefix, tier[0], i), evs, ['clamp-boundary', 'float-below-floor' if want_below else 'float-exact', 'type%d' % ttype]))
+        # boot from a state sector with arbitrary 32-bit position / tilt words (the tilt slot is a union with the RGB colour, the sector is
+        # loaded without validation): what is reported from boot until the first movement must be -1 or 0..100 for EVERY stored value
+        WORDS = [-1, -2147483648, -100, 0, 1, 99, 100, 101, 5100, 10099, 10100, 10101, 10150, 12900, 12950, 0xFF00, 0xFF0000, 0xFFFFFF, 0x7FFFFFFF,
+                 25700, 25749, 25750, 65535, 65536]
+        for i in range(max(24, n // 25)):
+            ttype = rng.choice([1, 2, 3, 1, 2, 3, 0]); tilt_ms = 0 if ttype == 0 else rng.choice([500, 2000, 1730])
+            w = lambda: rng.choice(WORDS) if rng.random() < 0.8 else rng.randrange(-2**31, 2**31)
+            pos0 = w() if rng.random() < 0.6 else rng.choice([100, 5100, 10100])
+            tilt0 = WORDS[i % len(WORDS)] if i < len(WORDS) else w()
+            F_ms = rng.choice([2000, 20000, 17300])
+            cfg = [rng.choice([1, rng.randrange(1, 2**32)]), F_ms, F_ms, tilt_ms, ttype, rng.choice([-1, 5]), pos0, tilt0, 250000]
+            evs = [('CFG', cfg, b'')] + [('CB', [rng.choice([10000, 100000, 250000])], b'') for _ in range(rng.randrange(3, 30))]
+            if rng.random() < 0.5:
+                evs.append(('SET', [rng.choice([1, 2])], b'')); evs += [('CB', [10000], b'')] * rng.randrange(5, 120)
+                evs.append(('SET', [0], b'')); evs += [('CB', [100000], b'')] * 4
+            cases.append(F.Case('%s%sG%d' % (prefix, tier[0], i), evs, ['persisted-state-words', 'type%d' % ttype]))
         # the 10-minute rule across the counter wrap: motor energised for more than 600 s, coarse callbacks
         for i in range(max(2, n // 60)):
             fo = rng.choice([0, 0, 600000, 400000])
